@@ -62,7 +62,8 @@ def gen_spec(rng, allow):
             rules.append({'pat':pat,'acts':acts,'cons':[None]*L,'ret':0})
         passes.append({'type':'pos','pre':0,'maxloop':5,'rules':rules})
     fdir=rng.randrange(2) if 'rtl' in allow else 0
-    return {'dir':fdir,'glyphs':glyphs,'cmap':{0x61+i:1+i for i in range(6)},'nattrs':8,'user':2,'classes':classes,'passes':passes}
+    nlin=rng.randrange(0,ncls+1) if 'lookup' in allow else ncls
+    return {'nlinear':nlin,'dir':fdir,'glyphs':glyphs,'cmap':{0x61+i:1+i for i in range(6)},'nattrs':8,'user':2,'classes':classes,'passes':passes}
 def main():
     N=int(sys.argv[1]); seed=int(sys.argv[2]); allow=set(sys.argv[3].split(',')) if len(sys.argv)>3 else set()
     rng=random.Random(seed); bad=0; total=0; fired=0; noload=0
